@@ -4,6 +4,7 @@ mod common;
 mod dirdrv;
 mod hookdb;
 mod refhash;
+mod triedrv;
 mod wire;
 
 fn main() {
@@ -11,6 +12,7 @@ fn main() {
     let sub = args.get(1).map(|s| s.as_str()).unwrap_or("");
     match sub {
         "dir" => dirdrv::main_dir(&args[2..]),
+        "trie" => triedrv::main_trie(&args[2..]),
         other => {
             eprintln!("unknown subcommand {other:?}");
             std::process::exit(2);
